@@ -123,6 +123,12 @@ func main() {
 			defer pprof.StopCPUProfile()
 		}
 	}
+	// Development switches (not used by ./check): C16_ONLY=seq|sched|stress
+	// runs one engine, C16_CPUPROFILE=<file> writes a CPU profile.
+	if only := os.Getenv("C16_ONLY"); only != "" {
+		r.Set("dev_only_engine", only)
+	}
+	r.Count("porcupine_unknown", 0)
 	start := time.Now()
 	if os.Getenv("C16_ONLY") == "" || os.Getenv("C16_ONLY") == "seq" {
 		engineSeq()
